@@ -20,7 +20,7 @@
       - the abstract map is a map: strictly sorted, one entry per key ([C01_abstract_is_map]).
     The set is the instance [V = unit] (its twins are stated at the end). *)
 From Coq Require Import List NArith Bool Sorted.
-From PT Require Import Refine Refine2.
+From PT Require Import Refine Refine2 EntryApi InstEntry.
 From PT.Properties Require Import Common.
 Import ListNotations.
 
@@ -251,6 +251,41 @@ Proof.
                 m pa i p v l r Hr Hs) as [A [B [C _]]]. auto.
 Qed.
 
+(** Every Entry-API path, handle by handle.  [t_entry_chain m q acts] is the state machine of one
+    entry handle (EntryApi.v: creation by [entry(q)], then ANY sequence of [Entry] /
+    [OccupiedEntry] / [VacantEntry] method calls, incl. wrongly matched variants, consuming
+    calls, panicking closures and the known class) — the function the extracted driver runs for
+    [entry] lines.  Its tokens (values seen through returned references, old values, keys, [ok],
+    wrong-variant, panic) are those of the reference machine [crun] that runs on the ABSTRACT cell
+    [a_get A q] alone; afterwards the abstract map holds at [q] what that machine says, and every
+    entry under another key is untouched. *)
+Theorem C01_entry_chain (m : pmap pfx V) (q : pfx) (acts : list (eact V)) :
+  wfm w V (root m) -> okp w q ->
+  let A := entries (root m) in
+  let A' := entries (root (fst (t_entry_chain w fl V m q acts))) in
+  let r := crun pfx V (is_some (a_get A q)) (t_h_key w fl V m (t_entry w fl V m q)) q (a_get A q) (fl0) acts in
+  snd (t_entry_chain w fl V m q acts) = snd r /\
+  a_get A' q = fst r /\
+  (forall e, ekey w V e <> kbits w q -> (In e A' <-> In e A)).
+Proof. exact (entry_chain_refines_abstract pfx V _ _ _ _ _ _ _ _ _ (laws w fl Hw) m q acts). Qed.
+
+(** single calls, spelled out: [entry(q).insert(x)] returns the previous value and stores [x];
+    [or_insert(x)] / [or_insert_with(|| x)] / [or_default()] return (a reference to) the resident
+    value if there is one, else store and return [x] *)
+Theorem C01_entry_insert (m : pmap pfx V) (q : pfx) (x : V) :
+  wfm w V (root m) -> okp w q ->
+  snd (t_entry_chain w fl V m q [EInsert x]) = [TVal (t_get w fl V (root m) q)] /\
+  t_get w fl V (root (fst (t_entry_chain w fl V m q [EInsert x]))) q = Some x.
+Proof. exact (entry_insert_content pfx V _ _ _ _ _ _ _ _ _ (laws w fl Hw) m q x). Qed.
+
+Theorem C01_entry_or_insert (m : pmap pfx V) (q : pfx) (x : V) (a : eact V) :
+  a = EOrInsert x \/ a = EOrInsertWith (Some x) \/ a = EOrDefault x ->
+  wfm w V (root m) -> okp w q ->
+  let v := match t_get w fl V (root m) q with Some y => y | None => x end in
+  snd (t_entry_chain w fl V m q [a]) = [TVal (Some v)] /\
+  t_get w fl V (root (fst (t_entry_chain w fl V m q [a]))) q = Some v.
+Proof. exact (entry_or_insert_content pfx V _ _ _ _ _ _ _ _ _ (laws w fl Hw) m q x a). Qed.
+
 End C01.
 
 (* ---------------------------------------------------------------------------------------- *)
@@ -370,3 +405,6 @@ Print Assumptions C01_set_insert.
 Print Assumptions C01_set_remove.
 Print Assumptions C01_set_observers.
 Print Assumptions adm_hop_ok.
+Print Assumptions C01_entry_chain.
+Print Assumptions C01_entry_insert.
+Print Assumptions C01_entry_or_insert.
